@@ -25,9 +25,9 @@ def demo_cmd(demo):
     for f in files:
         if f == "tests/solver.rs":
             flt = names[0] if names else "seed_demo"
-            cmds.append("cargo test --offline --test solver %s" % ("seed_demo" if len(names) != 1 else flt))
+            cmds.append("cargo test --offline -p resolvo --features serde --test solver %s" % ("seed_demo" if len(names) != 1 else flt))
         elif f.startswith("tests/"):
-            cmds.append("cargo test --offline --test %s" % os.path.basename(f)[:-3])
+            cmds.append("cargo test --offline -p resolvo --features serde --test %s" % os.path.basename(f)[:-3])
     return " && ".join(cmds) or "cargo test --offline seed_demo"
 
 def main():
